@@ -221,6 +221,11 @@ def replay(rec: dict) -> bool:
         from harness.lib.core import lake_build
         lake_build([EXE, EXE_W])
     guards = _guards()
+    if "conn_case" in r:
+        res = wrig.run_conn_case(r["conn_case"])
+        if r.get("oracle"):
+            return not res["oracle"]
+        return run_driver(EXE_W, res["lines"]) == res["impl"]
     if "world_case" in r:
         res = wrig.run_world_case(r["world_case"], guards)
         model = run_driver(EXE_W, res["lines"])
@@ -361,3 +366,34 @@ def run(ctx: Ctx):
                     ctx.sample({"case": name, "focus": case.get("focus"), "traffic": [f"{q} => {m}" for q, m in keep[:4]]}, cap=6)
     ctx.oblige("rig:R-recv (two hosts, real receive of DNS/NTP classes, real transport) agrees on every trace", "correspondence",
                wagree == len(world_cases), f"{len(world_cases) - wagree} of {len(world_cases)} traces disagree")
+
+    # -- R-conn: IOSoftware.add_connection / terminate_connection on real instances with a small max_sessions vs `Conn`
+    crng = ctx.rng.fork("conn")
+    conn_cases = [wrig.gen_conn_case(crng) for _ in range(ctx.scale(80, 2000))]
+    cres = [wrig.run_conn_case(c) for c in conn_cases]
+    lines_all = []
+    for r in cres:
+        lines_all += r["lines"] + ["reset"]
+    model_all = run_driver(EXE_W, lines_all, timeout=3000)
+    pos, cagree = 0, 0
+    for c, r in zip(conn_cases, cres):
+        model = model_all[pos:pos + len(r["lines"])]
+        pos += len(r["lines"]) + 1
+        ctx.cov["traces_validated_against_impl"] += 1
+        ctx.case({"conn": c}, any("OVERWHELMED" in m for m in model))
+        ctx.count("conn:type:" + c["type"])
+        ctx.count("conn:max:" + str(c["max"]))
+        for q, m in zip(r["lines"][1:], model[1:]):
+            ctx.count(f"conn:{q.split()[1]}:{m.split()[1]}:{m.split()[-1]}")
+        for (i, kind, detail) in r["oracle"][:1]:
+            ctx.violation({"kind": kind, "via": "conn"}, f"{kind} after op {i}: {detail}", {"conn_case": c, "oracle": kind})
+        if model == r["impl"]:
+            cagree += 1
+        else:
+            j = next((k for k, (a, b) in enumerate(zip(r["impl"], model)) if a != b), min(len(model), len(r["impl"])))
+            ctx.violation({"kind": "model-vs-impl", "where": "connections", "op": r["lines"][j].split()[1] if j < len(r["lines"]) else "?"},
+                          f"connection bookkeeping differs from the proved model at {r['lines'][j] if j < len(r['lines']) else '?'!r}: "
+                          f"impl={r['impl'][j] if j < len(r['impl']) else None!r} model={model[j] if j < len(model) else None!r}",
+                          {"conn_case": dict(c, ops=c["ops"][:j]), "from": "conn"})
+    ctx.oblige("rig:R-conn (add_connection / terminate_connection) agrees on every trace", "correspondence", cagree == len(conn_cases),
+               f"{len(conn_cases) - cagree} of {len(conn_cases)} traces disagree")
